@@ -20,8 +20,8 @@ META = {
              "(a) model vs the real inference rules and reference semantics vs the real operators on generated cases; (b) for ALL "
              "operators offering inference (deserialised by the real ONNX registry): infer, instantiate under 8 assignments (0, 1, "
              "negatives), execute, and check every claim with the Coq evaluator -- the only coverage (a test) for operators without a "
-             "model. Findings: 6 repaired by fix commits of this group (Where, reductions, Slice, Squeeze, executor div and pow), F5 (Equal "
-             "via SymExpr::range) repaired by C11's fix, 5 recorded as known (F70 Broadcast(0,1) evaluates to max, F73 symbolic Range "
+             "model. Findings: 4 repaired by fix commits of this group (Where, reductions, Slice, Squeeze), 2 executor defects found here "
+             "(div/pow result rank) and F5 (Equal via SymExpr::range) repaired on main by the ops and C11 groups, 5 recorded as known (F70 Broadcast(0,1) evaluates to max, F73 symbolic Range "
              "length, F75 symbolic Slice size, F76 SkipLayerNormalization placeholders, F78 Reshape with symbolic 0/-1: pinned by unit "
              "tests or owned by C11's model) and reported as KNOWN-FINDING only for instantiations inside the recorded class."),
     "note": ("Trusted: Coq kernel; the correspondence sample (a test); the hook and harness; exec_ref (tied to the kernels only by the "
